@@ -1,4 +1,5 @@
 import MpsVerif.Model.RemoteExc
+import MpsVerif.Legacy.RemoteExc
 import MpsVerif.Drv.Util
 /-!
 Differential driver for the `RemoteException` model (`drv remoteexc`).
@@ -10,6 +11,11 @@ Differential driver for the `RemoteException` model (`drv remoteexc`).
                                                     → `wrp <id> <k> t=<toks> <tree>` | `wrp <id> <k> none`
                                                       (the constructor alone: `wrapWith` = `(self.exc, self.tb)`)
                                                       `out <id> <k> <tree>` | `out <id> <k> none`
+
+    memo <id> <oid>;<cls>;<arg>;<toks> ...          → `memo <id> P=<toks>|<toks>|… R=<toks>|…`
+        one unpickling of a flat list of `RemoteException`s with object identities in the heap model
+        of `Legacy/RemoteExc.lean`: the texts the entries arrive with under the pinned (`P`) and the
+        repaired (`R`) `_rebuild_exception`
 
 tree  ::= E <cls> a:<nats> l:<toks|-> k:n | k:r:<toks> | k:o:<toks>  entry* .
 entry ::= V <nat> | X tree | W w:<toks> tree
@@ -134,6 +140,14 @@ partial def loop (h : IO.FS.Stream) (st : St) : IO Unit := do
     | _, _ =>
       IO.println s!"BAD {id} hop {k}"
       loop h st
+  | "memo" :: id :: rest =>
+    let ents : List Legacy.Ent := rest.filterMap fun w =>
+      match w.splitOn ";" with
+      | [o, c, a, t] => some ⟨o.toNat?.getD 0, c.toNat?.getD 0, Drv.natList a, Drv.natList t⟩
+      | _ => none
+    let sh (l : List Legacy.Out) : String := "|".intercalate (l.map fun o => showToks o.text)
+    IO.println s!"memo {id} P={sh (Legacy.pkPinned ents)} R={sh (Legacy.pkRepaired ents)}"
+    loop h st
   | _ => loop h st
 
 def main : IO Unit := do loop (← IO.getStdin) {}
